@@ -156,12 +156,16 @@ class Building(object):
 
     @property
     def int_heat_flat(self):
-        """Get or set value between 0 and 1 for latent fraction of internal gains."""
+        """Get or set non-negative latent fraction of internal gains.
+
+        The latent load is this fraction times the (sensible) internal heat, so for hours
+        dominated by occupants with a high latent share it exceeds one.
+        """
         return self._int_heat_flat
 
     @int_heat_flat.setter
     def int_heat_flat(self, value):
-        self._int_heat_flat = float_in_range(value, 0, 1, 'int_heat_flat')
+        self._int_heat_flat = float_positive(value, 'int_heat_flat')
 
     @property
     def infil(self):
